@@ -1,5 +1,116 @@
-/- Driver.Conc — line protocol of the `conc` sub-harness (stub until the unit is built). -/
-import Ioc.Basic
+/-
+  sub-driver `conc` (C14, C20). Scenario lines (everything else the harness does is oracle-only, `#…`):
+    close <n> <errmask> <seed>   one pseudo-random schedule of the Close system (configuration read from the regenerated
+                                 skeleton), sampled at the moment main returns      → calls=1,1,… done=1,1,…
+    scan <n> <failmask> <seed>   same for one scanning round; completed appends to errs when main reads it → errs=<k>
+    lofn <digits>                two callers LoadOrStoreFn(1, 10+t) on an empty map, schedule = thread per step
+                                                                                    → t0=<v>,<loaded> t1=<v>,<loaded>
+    range <nk> <a>               Range over keys 1..nk; after a visits another thread deletes every key, visited first
+                                                                                    → seen=<pairs reported>
+    hist <init> <call>…          a recorded history; is it linearizable w.r.t. `Op.spec`?  → lin | nonlin
+-/
+import Ioc.Conc
 namespace Driver.Conc
-def handle (_line : String) : String := "unimplemented"
+open Ioc Ioc.Conc
+
+def joinC (l : List String) : String := ",".intercalate l
+
+def bitMask (mask : Nat) : Nat → Bool := fun i => mask.testBit i
+
+def runFan (cfg : FanCfg) (n mask seed : Nat) : St :=
+  schedule cfg n (bitMask mask) (40 * (n + 2)) seed init
+
+def showClose (n : Nat) (s : St) : String :=
+  if s.mainPc != 3 then "stuck" else
+  "calls=" ++ joinC ((List.range n).map fun i => toString (s.calls i)) ++
+  " done=" ++ joinC ((List.range n).map fun i => if s.wpc i == WPc.finished then "1" else "0")
+
+def lofnQueues : Nat → List Op := fun t => if t < 2 then [Op.loadOrStoreFn 1 (10 + t)] else []
+
+def showRes : Option Res → String
+  | some (.got (some v) l) => toString v ++ "," ++ (if l then "1" else "0")
+  | some (.got none l) => "-," ++ (if l then "1" else "0")
+  | some .unit => "u"
+  | some (.seen l) => "s" ++ toString l.length
+  | none => "?"
+
+def resOf (h : List (Nat × Op × Res)) (t : Nat) : Option Res :=
+  (h.find? fun e => e.1 == t).map fun e => e.2.2
+
+def handleLofn (digits : String) : String :=
+  let sched := digits.toList.map fun c => c.toNat - 48
+  let s := run factProgs (Sys.start emptyMap lofnQueues) sched
+  "t0=" ++ showRes (resOf s.hist 0) ++ " t1=" ++ showRes (resOf s.hist 1)
+
+def handleRange (nk a : Nat) : String :=
+  let keys := (List.range nk).map (· + 1)
+  let m0 : MapSt := fun k => if 1 ≤ k ∧ k ≤ nk then some 1 else none
+  let dels := keys.map Op.delete
+  let q : Nat → List Op := fun t => if t = 0 then [Op.range keys] else if t = 1 then dels else []
+  let sched := [0] ++ List.replicate (min a nk) 0 ++ List.replicate (2 * nk) 1 ++ List.replicate nk 0
+  let s := run factProgs (Sys.start m0 q) sched
+  match resOf s.hist 0 with
+  | some (.seen l) => "seen=" ++ toString l.length
+  | _ => "seen=?"
+
+/-! recorded histories -/
+
+def natOr (s : String) (d : Nat) : Nat := s.toNat?.getD d
+
+def parsePairs (sep : String) (kv : String) (s : String) : List (Nat × Nat) :=
+  if s == "-" || s == "" then [] else
+  (s.splitOn sep).filterMap fun p =>
+    match p.splitOn kv with
+    | [k, v] => some (natOr k 0, natOr v 0)
+    | _ => none
+
+def parseRes (s : String) : Option Res :=
+  match s.splitOn "/" with
+  | ["u"] => some .unit
+  | ["g", v, b] => some (.got (if v == "-" then none else some (natOr v 0)) (b == "1"))
+  | "s" :: ps => some (.seen (ps.filterMap fun p => match p.splitOn "=" with | [k, v] => some (natOr k 0, natOr v 0) | _ => none))
+  | _ => none
+
+def parseOp (name k v : String) : Option Op :=
+  let kn := natOr k 0
+  let vn := natOr v 0
+  match name with
+  | "L" => some (.load kn)
+  | "S" => some (.store kn vn)
+  | "LS" => some (.loadOrStore kn vn)
+  | "LF" => some (.loadOrStoreFn kn vn)
+  | "D" => some (.delete kn)
+  | "R" => some (.range ((k.splitOn ".").map fun x => natOr x 0))
+  | "P" => some (.put kn)
+  | "E" => some (.exists_ kn)
+  | "X" => some (.remove kn)
+  | _ => none
+
+def parseCall (tok : String) : Option Rec :=
+  match tok.splitOn ":" with
+  | [name, k, v, res, inv, ret] =>
+    match parseOp name k v, parseRes res with
+    | some op, some r => some ⟨op, r, natOr inv 0, natOr ret 0⟩
+    | _, _ => none
+  | _ => none
+
+def handleHist (init : String) (calls : List String) : String :=
+  let m0 : MapSt := fun k => (parsePairs "," "=" init).lookup k
+  let recs := calls.map parseCall
+  if recs.any Option.isNone then "bad-line" else
+  if linearizableB m0 (recs.filterMap id) then "lin" else "nonlin"
+
+def handle (line : String) : String :=
+  match line.splitOn " " with
+  | ["close", n, mask, seed] =>
+    let n := natOr n 0
+    showClose n (runFan (closeShape Facts.closeSkel).cfg n (natOr mask 0) (natOr seed 0))
+  | ["scan", n, mask, seed] =>
+    let s := runFan (scanShape Facts.scanSkel).cfg (natOr n 0) (natOr mask 0) (natOr seed 0)
+    if s.mainPc != 3 then "stuck" else "errs=" ++ toString s.acc
+  | ["lofn", digits] => handleLofn digits
+  | ["range", nk, a] => handleRange (natOr nk 0) (natOr a 0)
+  | "hist" :: init :: calls => handleHist init calls
+  | _ => "bad-line"
+
 end Driver.Conc
